@@ -13,7 +13,7 @@ code -> spec  random forecasts (up to 40x8 bins, zero rates, hundreds of events)
 import random
 from fractions import Fraction
 
-from vh.core import MachineryError, guarded, Raised
+from vh.core import MachineryError, guarded, Raised, same_evaluation
 from vh import xr
 from vh.invcdf import Cdf
 
@@ -233,6 +233,20 @@ def run(chk, replay=None):
         else:
             res = call_test(pe, kind, fc, cat, nsim, rn, seed=chk.seed + t)
         chk.count()
+        if t % 3 == 0 and not isinstance(res, Raised):
+            # evaluating is an observation: the same call on the same forecast and catalog objects, after the other
+            # tests ran on them, returns the same result, and the forecast's rates are untouched
+            before = numpy.array(fc.data, dtype=float).tobytes()
+            for other in ('S', 'M', 'CL', 'L'):
+                if other != kind:
+                    call_test(pe, other, fc, cat, 2, None, seed=1)
+            again = call_test(pe, kind, fc, cat, nsim, rn, seed=chk.seed + t)
+            chk.count(4)
+            if not same_evaluation(res, again) or numpy.array(fc.data, dtype=float).tobytes() != before:
+                chk.violation('trace:%s:re-evaluation on the same objects differs' % kind,
+                              {'shape': [nc, nb], 'n_obs': n_obs, 'first': float(res.observed_statistic),
+                               'again': repr(again) if isinstance(again, Raised) else float(again.observed_statistic),
+                               'rates_changed': numpy.array(fc.data, dtype=float).tobytes() != before})
         traces.append({'kind': kind, 'rid': rid, 'w': w, 'sims': sims})
         results.append(res)
         metas.append({'kind': kind, 'shape': [nc, nb], 'n_obs': n_obs, 'rates': rates, 'data': data})
